@@ -398,5 +398,8 @@ PROPS["C09"]["explanation"] += " (AXISUSE) in the axis loops of GRreadimage and 
 PROPS["C03"]["rules"] = PROPS["C03"]["rules"] + [rules_sd.rule_contiguity_full_extent]
 PROPS["C03"]["explanation"] += " (CONTIG) the test that lets NCvcmaxcontig merge a dimension into a contiguous run compares the edge with the whole dimension, independently of the start coordinate."
 
+PROPS["C20"]["rules"] = PROPS["C20"]["rules"] + [rules_sd.rule_refuse_before_mutation]
+PROPS["C20"]["explanation"] += " (REFUSEFIRST) SDcreate compares the request with every documented maximum (rank, name length, number of data sets) before it first changes the file's dimension list, so a refused call leaves the file as it was."
+
 NOT_APPLICABLE = {}
 
